@@ -903,6 +903,8 @@ def _call_ext(interp, ext, node, args, kwargs, st):
             return fresh(D0, kind=a0.kind if a0 is not None and a0.kind in ("float", "arr") else "arr", sym=tsym, tags=rtags)
         if name in ALLOC_ANY:
             out = fresh(ANY, tags=frozenset(["alloc"]))
+            if name in ("zeros", "empty") and a0 is not None and a0.kind in ("int", "float") and a0.items is None:
+                out.tags = out.tags | {"alloc1d"}               # np.empty(n): a vector
             if name.endswith("_like") and a0 is not None and "maybe-int" in a0.tags and "dtype" not in kwargs:
                 out.tags = out.tags | {"maybe-int"}          # the buffer inherits the (caller's) dtype of its prototype
             if a0 is not None and a0.items is not None and a0.items and a0.items[-1].has_const() \
@@ -1064,6 +1066,29 @@ def _call_ext(interp, ext, node, args, kwargs, st):
                     base_ = getattr(interp, "_slice_bases", {}).get(bid)
                     if base_ is not None and hi1 is None and lo2 is None and isinstance(lo1, int) and lo1 == hi2 and lo1 != 0:
                         return call_ext(interp, "numpy.roll", node, [base_, vconst(-lo1)], {"axis": vconst(0)}, st)
+            if name in ("column_stack", "hstack") and elems:
+                # blocks of statically known width side by side: a table typed column by column (plane equations: three
+                # dimensionless normal components and an offset that is a length)
+                cols = []
+                for e in elems:
+                    sl_ = shape_last(e)
+                    ed = dim_collapse(e.dim) if e.dim[0] != "COLS" else e.dim
+                    if sl_ and sl_[1] == 2:
+                        if e.dim[0] == "COLS" and len(e.dim[1]) == sl_[0]:
+                            cols += list(e.dim[1])
+                        elif dim_known(dim_collapse(e.dim)):
+                            cols += [dim_collapse(e.dim)[1]] * sl_[0]
+                        else:
+                            cols = None
+                    elif name == "column_stack" and ("alloc1d" in e.tags or (sl_ and sl_[1] == 1) or "norm" in e.tags or ("reduced", "sum") in e.tags) \
+                            and dim_known(dim_collapse(e.dim)):
+                        cols += [dim_collapse(e.dim)[1]]
+                    else:
+                        cols = None
+                    if cols is None:
+                        break
+                if cols and len(set(cols)) > 1:
+                    return fresh(("COLS", tuple(cols), 1), tags=frozenset(["concat", ("shape-last", len(cols), 2)]))
             d = ANY
             conflict = False
             for e in elems:
@@ -1078,7 +1103,7 @@ def _call_ext(interp, ext, node, args, kwargs, st):
                 # heterogeneous stacking (e.g. an in-plane constraint row appended to a coordinate block):
                 # keep the dimension of the first block, never a report
                 d = TOP
-                for e in elems:
+                for e in ([] if name in ("column_stack", "hstack") else elems):      # (side by side: columns of different kinds, no common degree)
                     ed = dim_collapse(e.dim)
                     if e.kind in ("list", "tuple") and e.items is not None:
                         ed = ANY
